@@ -29,6 +29,27 @@ public:
   bool IsEnd() const;
   bool SerializeValue(int& value);
 };
+// abstract array scope whose items are objects (a multimap is stored as an array of {key,value} objects); only declarations - loading one
+// pair through the generic Serialize() is a contract-only callee of the multimap loader (pair.h / the object dispatch are not under this contract)
+class AbsPairObjectScope : public TArchiveScope<SerializeMode::Load> {
+public:
+  using key_type = std::string;
+  using supported_key_types = TSupportedKeyTypes<std::string>;
+  static constexpr char path_separator = '/';
+  explicit AbsPairObjectScope(SerializationContext& ctx) : TArchiveScope<SerializeMode::Load>(ctx) {}
+  bool SerializeValue(const std::string& key, int& value);
+  std::string GetPath() const;
+};
+class AbsLoadPairArrayScope : public TArchiveScope<SerializeMode::Load> {
+public:
+  explicit AbsLoadPairArrayScope(SerializationContext& ctx) : TArchiveScope<SerializeMode::Load>(ctx) {}
+  static constexpr bool is_binary = false;
+  static constexpr char path_separator = '/';
+  bool IsEnd() const;
+  std::optional<AbsPairObjectScope> OpenObjectScope(size_t);
+  std::string GetPath() const;
+};
+void load_multimap(AbsLoadPairArrayScope& scope, std::multimap<int, int>& cont) { BitSerializer::Detail::SerializeMultiMapImpl(scope, cont); }
 void load_set(AbsLoadSetScope& scope, std::set<int>& cont) { BitSerializer::Detail::SerializeSetImpl(scope, cont); }
 void load_map(AbsLoadMapScope& scope, std::map<int, int>& cont, MapLoadMode mode) { BitSerializer::Detail::SerializeMapImpl(scope, cont, mode); }
 }
